@@ -1,5 +1,6 @@
 import PBProofs.Lemmas.Query
 import PBProofs.Lemmas.QueryPrint
+import PBProofs.Lemmas.QueryBytes
 /-
 C11 — Query text and query objects convert into each other without change of meaning.
 Property theorems only (helper lemmas live in PBProofs/Lemmas/Query.lean and QueryPrint.lean).
@@ -76,6 +77,49 @@ theorem tokens_preserved_any_style (w : Word) (h : w.wf = true) : lex w.render =
 /-- `prepToken` undoes `escapeString`'s escaping on every string (the regexp `(?s)\\(.)` against
     `ReplaceAll(\ → \\, " → \")`). -/
 theorem unescape_escape (t : Tok) : prepToken (escBody t) = t := prep_escBody t
+
+/-! ### Tokens are byte strings: the tokenizer / escaper pair on ARBITRARY bytes
+
+Go strings are byte strings; `PB.Query.B` (PB/Model/QueryBytes.lean) is `extractSnippets` / `prepToken` /
+`escapeString` as they act on any bytes: the loops decide on the rune `range` decodes (U+FFFD, width 1, for every byte
+that is not part of a valid UTF-8 sequence) and copy source bytes. -/
+
+/-- Any token — any bytes at all: lone continuation bytes, truncated or overlong sequences, surrogates, 0xFF, next
+    to spaces, quotes, backslashes, parentheses, tab / CR / LF, or empty — written by `escapeString` is read back
+    by the tokenizer as exactly its bytes. -/
+theorem tokens_preserved_bytes (t : B.BStr) : B.lexBytes (B.escB t) = .ok [t] := B.lex_escB t
+
+/-- `prepToken` undoes `escapeString`'s escaping on every byte string: the regexp's `.` consumes one decode unit,
+    `$1` copies its source bytes, and the inserted backslashes never regroup the bytes of the token. -/
+theorem unescape_escape_bytes (t : B.BStr) : B.prepTokenB (B.escBodyB t) = t := B.prep_escBodyB t
+
+/-- `for pos, char = range text` visits every byte exactly once: the units, put together, are the text
+    (slices `text[a:b]` taken at loop positions lose nothing). -/
+theorem range_covers_every_byte (s : B.BStr) : B.flat (B.units s) = s := B.flat_units s
+
+/-- Escaping commutes with decoding: the decode units of an escaped token are the units of the token, each
+    backslash / quote unit preceded by one backslash unit (an inserted `\` never completes or breaks a sequence). -/
+theorem escape_commutes_with_decoding (t : B.BStr) : B.units (B.escBodyB t) = B.escU (B.units t) :=
+  B.units_escBody t
+
+/-- A byte that is not ASCII is never seen as one of the characters the tokenizer acts on (overlong forms of
+    `\`, `"`, space … are U+FFFD units, not separators). -/
+theorem non_ascii_never_special (b : Nat) (rest : B.BStr) (h : 0x80 ≤ b) :
+    B.isSpecialB (B.decode1 (b :: rest)).1 = false := B.special_hi (B.rune_hi b rest h)
+
+-- Latin-1 `caf\xe9 "du nord"` (seeded change C11-r3-2): quoted, the quote escaped, 0xE9 untouched
+example : B.escB [0x63, 0x61, 0x66, 0xe9, 0x20, 0x22, 0x64, 0x75, 0x22] =
+    [0x22, 0x63, 0x61, 0x66, 0xe9, 0x20, 0x5c, 0x22, 0x64, 0x75, 0x5c, 0x22, 0x22] := by decide
+-- a truncated 3-byte sequence followed by a backslash: two invalid units (U+FFFD, width 1) and the backslash
+example : B.units [0xe4, 0xb8, 0x5c] = [⟨[0xe4], 0xFFFD⟩, ⟨[0xb8], 0xFFFD⟩, ⟨[0x5c], 0x5c⟩] := by
+  simp [B.units_cons, B.units_nil, B.decode1, B.lo2, B.hi2, B.isCont, B.runeError]
+-- the complete sequence is one unit seeing U+4E16; the overlong backslash C1 9C is two invalid units
+example : B.units [0xe4, 0xb8, 0x96] = [⟨[0xe4, 0xb8, 0x96], 0x4e16⟩] := by
+  simp [B.units_cons, B.units_nil, B.decode1, B.lo2, B.hi2, B.isCont]
+example : B.units [0xc1, 0x9c] = [⟨[0xc1], 0xFFFD⟩, ⟨[0x9c], 0xFFFD⟩] := by
+  simp [B.units_cons, B.units_nil, B.decode1, B.runeError]
+example : B.lexBytes (B.escB [0xe4, 0xb8, 0x5c, 0x22, 0xff]) = .ok [[0xe4, 0xb8, 0x5c, 0x22, 0xff]] :=
+  tokens_preserved_bytes _
 
 /-! ### The documented grammar is accepted, with the meaning the README gives it -/
 
